@@ -58,7 +58,10 @@ def scope_table(tree):
 LOOP_MODES = ("plain", "M3", "M1", "M0", "M3+cond", "cond")
 
 
-def skeleton_script(tree, values, unused=frozenset(), ctrl_uses=None, loop_mode="plain", lits=False):
+INTERNAL_KINDS = ("intro1", "ucast", "ureshape")
+
+
+def skeleton_script(tree, values, unused=frozenset(), ctrl_uses=None, loop_mode="plain", lits=False, vkind=None):
     """values: [(scope, dep, uses)], dep = "x" | ("arg", loop_scope) | ("val", j); uses = set of scopes.
     A value is created at the start of its scope's block; the use-node of a scope (a Sum over the
     scope's base value, the values used there and the control nodes of the scope) is created at its
@@ -99,7 +102,9 @@ def skeleton_script(tree, values, unused=frozenset(), ctrl_uses=None, loop_mode=
                 if dep[1] not in val_id:
                     raise Invalid
                 ref = val_id[dep[1]]
-            block.append(["val", "neg", [ref]])
+            # `vkind` (an int): the shared values are user-level internal operators (`intro`, `unsafe_cast`,
+            # `unsafe_reshape` - `_Introduce` nodes), in turn
+            block.append(["val", "neg" if vkind is None else INTERNAL_KINDS[(vkind + k) % 3], [ref]])
             val_id[k] = fresh()
         refs = [base]
         if lits:
@@ -186,12 +191,15 @@ def skeletons(max_bodies: int, k: int, rng: random.Random | None = None, sample:
             for mode in modes + ["lits"]:
                 if mode == "lits" and (k != 1 or idx % 2):
                     continue
+                # every fourth skeleton: the shared values are `intro` / `unsafe_cast` / `unsafe_reshape`
+                vkind = idx // 4 if idx % 4 == 1 else None
                 try:
                     sc = skeleton_script(tree, list(vals), loop_mode="M3" if mode == "lits" else mode,
-                                         lits=mode == "lits")
+                                         lits=mode == "lits", vkind=vkind)
                 except Invalid:
                     continue
-                yield {"tree": tree, "values": [[s, d, sorted(u)] for s, d, u in vals], "loop_mode": mode}, sc
+                yield {"tree": tree, "values": [[s, d, sorted(u)] for s, d, u in vals], "loop_mode": mode,
+                       **({"value_kinds": "internal"} if vkind is not None else {})}, sc
 
 
 # --------------------------------------------------------------------------- random scripts
@@ -241,7 +249,7 @@ def random_script(rng: random.Random, size: int, leak_p: float, max_depth: int =
             budget[0] -= 1
             r = rng.random()
             if r < 0.55 or depth >= max_depth:
-                kind = rng.choice(["neg", "add", "add", "sum", "less", "const", "init", "plit"])
+                kind = rng.choice(["neg", "add", "add", "sum", "less", "const", "init", "plit", "intro1", "ucast", "ureshape"])
                 if kind == "plit":
                     # a plain Python literal from a small pool (repeated all over the program), cast, used
                     out.append(["val", "pconst", [], rng.choice([1.0, 2.0])])
@@ -254,7 +262,7 @@ def random_script(rng: random.Random, size: int, leak_p: float, max_depth: int =
                     continue
                 if kind in ("const", "init"):
                     refs = []
-                elif kind == "neg":
+                elif kind in ("neg", "intro1", "ucast", "ureshape"):
                     refs = [pick("f", open_bodies, local)]
                 elif kind in ("add", "less"):
                     refs = [pick("f", open_bodies, local), pick("f", open_bodies, local)]
@@ -505,7 +513,8 @@ def cross_skeletons(max_bodies: int, rng: random.Random | None = None, sample: i
         for unused in (frozenset(), frozenset([ci])):
             try:
                 sc = skeleton_script(tree, vals, unused=unused, ctrl_uses={ci: {u1, u2}},
-                                     loop_mode=LOOP_MODES[(ci + u1 + u2) % len(LOOP_MODES)])
+                                     loop_mode=LOOP_MODES[(ci + u1 + u2) % len(LOOP_MODES)],
+                                     vkind=(ci + u2) if (ci + u1) % 3 == 0 else None)
             except Invalid:
                 continue
             yield {"tree": tree, "ctrl": ci, "consumers": [u1, u2], "value_scope": vscope, "unused": sorted(unused)}, sc
@@ -656,3 +665,43 @@ def long_chain_script(length: int = 1100, outer: int | None = None):
     r = fresh()
     main.append(["loop", [0], 3, body, [a0 + 1, r], {"m": m}])
     return {"main": main, "res": [fresh()]}
+
+
+# --------------------------------------------------------------------------- round 7: one callable object, several bodies
+
+CALLABLE_FORMS = ("def", "lambda", "method", "partial")
+
+
+def callable_scripts():
+    """Legal programs in which ONE Python callable object is handed to several body slots: both branches
+    of one If; branches of two different `if_` calls (same and crossed slots); one `step` as the body of
+    two Loops (same argument types), also fed by the first Loop's output; a callable reading a mutable
+    capture that changes between two uses. Every slot must get its own body: the callable is called once
+    per slot and the applications it makes appear once per body. Forms: named function, lambda stored
+    in a variable, bound method, functools.partial. Refs: int = absolute id of a value made before any
+    callable is used, ["L", k] = k-th value of this invocation, ["A", k] = k-th argument, ["V"] = the
+    mutable capture, ["C", k] = output of the k-th control node made through a callable."""
+    f_block = [["val", "neg", [2]], ["val", "add", [["L", 0], 0]]]
+    g_block = [["val", "add", [2, 0]]]
+    step = [["val", "add", [["A", 2], 2]], ["val", "neg", [["L", 0]]]]
+    vcap = [["val", "add", [["V"], 0]]]
+    for form in CALLABLE_FORMS:
+        pre = [["val", "neg", [0]]]                                       # id 2
+        d_f = ["def", "f", form, f_block, [["L", 1]]]
+        d_g = ["def", "g", form, g_block, [["L", 0]]]
+        d_s = ["def", "step", form, step, [["L", 1]]]
+        yield {"form": form, "shape": "both-branches-of-one-if"}, {
+            "main": pre + [d_f, ["ifc", 1, "f", "f"], ["val", "sum", [["C", 0], 2]]], "res": [-1]}
+        yield {"form": form, "shape": "two-ifs-same-slots"}, {
+            "main": pre + [d_f, d_g, ["ifc", 1, "f", "g"], ["ifc", 1, "f", "g"], ["val", "sum", [["C", 0], ["C", 1]]]], "res": [-1]}
+        yield {"form": form, "shape": "two-ifs-crossed-slots"}, {
+            "main": pre + [d_f, d_g, ["ifc", 1, "f", "g"], ["ifc", 1, "g", "f"], ["val", "sum", [["C", 0], ["C", 1], 2]]], "res": [-1]}
+        yield {"form": form, "shape": "one-step-two-loops"}, {
+            "main": pre + [["val", "consti", [], 3], d_s, ["loopc", [0], "step", {"m": 3}], ["loopc", [2], "step", {"m": 3}],
+                           ["val", "sum", [["C", 0], ["C", 1]]]], "res": [-1]}
+        yield {"form": form, "shape": "one-step-two-loops-chained"}, {
+            "main": pre + [["val", "consti", [], 1], d_s, ["loopc", [0], "step", {"m": 3}], ["loopc", [["C", 0]], "step", {"m": 3}],
+                           ["val", "sum", [["C", 1], 2]]], "res": [-1]}
+        yield {"form": form, "shape": "capture-changes-between-uses"}, {
+            "main": pre + [["val", "neg", [2]], ["def", "h", form, vcap, [["L", 0]]], ["setcell", 2], ["ifc", 1, "h", "h"],
+                           ["setcell", 3], ["ifc", 1, "h", "h"], ["val", "sum", [["C", 0], ["C", 1]]]], "res": [-1]}
